@@ -1,5 +1,6 @@
 from __future__ import absolute_import
 import os
+import hashlib
 import weakref
 from fontTools.ufoLib import UFOReader, UFOLibError
 from defcon.objects.base import BaseObject
@@ -68,13 +69,14 @@ class DataSet(BaseObject):
             path = "%s/%s" % ("data", fileName)
             data = reader.readBytesFromPath(path)
             onDiskModTime = reader.getFileModificationTime(path)
-            self._data[fileName] = _dataDict(data=data, onDisk=True, onDiskModTime=onDiskModTime)
+            self._data[fileName] = _dataDict(data=data, onDisk=True, onDiskModTime=onDiskModTime, onDiskDigest=_makeDigest(data))
         return self._data[fileName]["data"]
 
     def __setitem__(self, fileName, data):
         assert data is not None
         onDisk = False
         onDiskModTime = None
+        onDiskDigest = None
         if fileName in self._scheduledForDeletion:
             assert fileName not in self._data
             self._data[fileName] = self._scheduledForDeletion.pop(fileName)
@@ -82,8 +84,9 @@ class DataSet(BaseObject):
             n = self[fileName] # force it to load so that the stamping is correct
             onDisk = self._data[fileName]["onDisk"]
             onDiskModTime = self._data[fileName]["onDiskModTime"]
+            onDiskDigest = self._data[fileName]["onDiskDigest"]
             del self._data[fileName] # now remove it
-        self._data[fileName] = _dataDict(data=data, dirty=True, onDisk=onDisk, onDiskModTime=onDiskModTime)
+        self._data[fileName] = _dataDict(data=data, dirty=True, onDisk=onDisk, onDiskModTime=onDiskModTime, onDiskDigest=onDiskDigest)
         self.dirty = True
 
     def __delitem__(self, fileName):
@@ -136,6 +139,7 @@ class DataSet(BaseObject):
             data["dirty"] = False
             data["onDisk"] = True
             data["onDiskModTime"] = writer.getFileModificationTime("%s/%s" % ("data", fileName))
+            data["onDiskDigest"] = _makeDigest(data["data"])
         self.dirty = False
 
     # ---------------------
@@ -158,7 +162,9 @@ class DataSet(BaseObject):
             elif self._scheduledForDeletion[fileName]["onDiskModTime"] != reader.getFileModificationTime(
                 "%s/%s" % ("data", fileName)
             ):
-                added.append(fileName)
+                # not what was scheduled for deletion. consider this a new file.
+                if _makeDigest(reader.readBytesFromPath("%s/%s" % ("data", fileName))) != self._scheduledForDeletion[fileName]["onDiskDigest"]:
+                    added.append(fileName)
         for fileName, data in self._data.items():
             # file on disk and has been loaded
             if fileName in filesOnDisk and data["data"] is not None:
@@ -166,7 +172,9 @@ class DataSet(BaseObject):
                 newModTime = reader.getFileModificationTime(path)
                 if newModTime != data["onDiskModTime"]:
                     newData = reader.readBytesFromPath(path)
-                    if newData != data["data"]:
+                    # compare with what was read from or written to the file,
+                    # not with the data as it may have been changed in memory
+                    if _makeDigest(newData) != data["onDiskDigest"]:
                         modified.append(fileName)
                 continue
             # file removed
@@ -211,8 +219,15 @@ class DataSet(BaseObject):
             self[k] = data[k]
 
 
-def _dataDict(data=None, dirty=False, onDisk=True, onDiskModTime=None):
-    return dict(data=data, dirty=dirty, onDisk=onDisk, onDiskModTime=onDiskModTime)
+def _dataDict(data=None, dirty=False, onDisk=True, onDiskModTime=None, onDiskDigest=None):
+    return dict(data=data, dirty=dirty, onDisk=onDisk, onDiskModTime=onDiskModTime, onDiskDigest=onDiskDigest)
+
+def _makeDigest(data):
+    if data is None:
+        return None
+    m = hashlib.md5()
+    m.update(data)
+    return m.digest()
 
 
 if __name__ == "__main__":
